@@ -12,10 +12,12 @@ definition) is compared with
     (constrained optimum by enumerating all walk assignments against the implementation's A, b, R, c, Q),
 and with the minimum of each default-penalty QUBO (all 2^n vectors for n <= 20)."""
 import itertools
+from fractions import Fraction
 
 import numpy as np
 
 from props import vrptw_ref as ref
+from vq import lit
 from vq.core import exc_cls
 
 INF = float("inf")
@@ -59,6 +61,33 @@ def rebuild(desc):
     for a, b, tt, c in desc["arcs"]:
         g.add_arc(a, b, tt, c)
     return g
+
+
+# ---------------- correspondence: the instance as the Coq model sees it ----------------
+HEADER = "From VQ Require Import Base LinAlg Vrptw Path Penalty Routes."
+TAGS = {1: "pool (routes with costs) of the model differs from the implementation's", 2: "depot self-arc present",
+        3: "capacity could bind", 4: "depot window does not open at 0", 5: "non-positive customer-customer travel time",
+        6: "arc grid incomplete for the model's valid routes", 7: "optimum over the model pool differs from the reference optimum"}
+
+
+def exact_z(x):
+    fr = Fraction(x)
+    assert fr.denominator == 1, x
+    return lit.z(fr.numerator)
+
+
+def case_term(desc, cap, init, routes, costs, grid, feas, opt):
+    """Gallina literal of type Routes.c08case: the build history (nodes, accepted arcs), what the
+    implementation stored, the arc grid, the reference optimum."""
+    code = {nm: 10 + k for k, (nm, _, _, _) in enumerate(desc["nodes"])}
+    ops = [f"PAddNode {lit.nat(code[nm])} {exact_z(dem)} {exact_z(lo)} {lit.ext(hi if hi == INF else int(hi))}"
+           for nm, dem, lo, hi in desc["nodes"]]
+    ops += [f"PAddArc {lit.nat(code[a])} {lit.nat(code[b])} {exact_z(tt)} {exact_z(c)}" for a, b, tt, c in desc["arcs"]]
+    return lit.tup(exact_z(cap), exact_z(init), lit.lst(ops),
+                   lit.lst([lit.lst([lit.nat(i) for i in r]) for r in routes]),
+                   lit.lst([exact_z(c) for c in costs]),
+                   lit.lst([exact_z(t) for t in grid]),
+                   lit.opt(opt if feas else None, exact_z))
 
 
 # ---------------- helpers ----------------
@@ -156,6 +185,7 @@ def run(ctx):
             "qubo_bruteforce": 0, "strict_feasible": 0, "seq_walk_enumerations": 0}
     from vrpqubo.routing_problem import ArcBasedRoutingProblem, PathBasedRoutingProblem, SequenceBasedRoutingProblem
     seen = set()
+    corr = []           # (desc, Gallina term) of every instance, for the correspondence step
 
     def bad(sig, msg, desc, extra=None):
         r = {"instance": desc}
@@ -210,6 +240,9 @@ def run(ctx):
         except Exception as e:  # noqa
             bad("oracle/arc/raises", f"arc-based model raised {exc_cls(e)}: {e}", desc, {"grid": grid})
             af, ao = feas, opt
+        corr.append((desc, {"grid": list(grid), "pool": [list(map(int, r)) for r in pb.routes],
+                            "costs": [float(c) for c in pb.route_costs], "reference": [feas, opt]},
+                     case_term(desc, 5, 0, pb.routes, pb.route_costs, grid, feas, opt)))
         if af != feas or (feas and ao != opt):
             bad("oracle/arc/optimum", f"arc-based optimum on the complete grid {grid} is {(af, ao)}, route-partition optimum is {(feas, opt)}",
                 desc, {"grid": grid})
@@ -242,6 +275,23 @@ def run(ctx):
                     if qv != so:
                         bad("oracle/seq/qubo", f"minimum of the {'strict' if strict else 'non-strict'} sequence default-penalty QUBO is {qv}, "
                             f"its constrained optimum is {so}", desc)
+    # ---- correspondence: the same instances through the Coq model (Routes.check_c08case) ----
+    # The model rebuilds the instance (nodes, accepted arcs, add_route on every candidate) and checks inside
+    # Coq that its pool and costs are the implementation's, that the decidable hypotheses of C08_path_equiv /
+    # C08_arc_equiv / C08_seq_* hold (no depot loop, capacity cannot bind, depot opens at 0, positive
+    # customer-customer travel times, complete grid) and that a search over the model pool finds the
+    # reference optimum.
+    mism, err = ctx.coq_mismatches("inst", HEADER, "c08case", "check_c08case", [t for _, _, t in corr], shard=60)
+    dist["correspondence_cases"] = len(corr)
+    if err is None:
+        for idx, tags in mism[:5]:
+            desc, extra, term = corr[idx]
+            ctx.violation("correspondence/c08/" + "-".join(str(t) for t in tags),
+                          "model and implementation disagree on an instance: " + "; ".join(TAGS.get(t, str(t)) for t in tags),
+                          {"instance": desc, "observed": extra, "tags": tags, "case": term}, False)
+    ctx.assumptions.append("C08's theorems speak about the Coq models of the three formulations (Path.v, Arc.v, Seq.v); that the "
+                           "implementation's A, b, R, c, Q are the models' is the correspondence of C05 / C06 / C07, not repeated here. "
+                           "Instances: integer data, zero demands (capacity cannot bind), depot window opening at 0, no depot self-arc.")
     ctx.count(evaluations=dist["instances"] * 4)
     ctx.cov["input_distribution"] = dist
     ctx.cov["rule"] = ("random VRPTWs with 1-3 customers (zero demands so capacity never binds; instances where it would are skipped), integer windows, "
